@@ -13,7 +13,10 @@ H_tU  == [tr |-> 101, sp |-> 0, fl |-> 0]       \* invalid: trace id only, unsam
 H_iSU == [tr |-> 0, sp |-> 201, fl |-> 0]       \* invalid: span id only, unsampled flag
 H_i0U == [tr |-> 0, sp |-> 0, fl |-> 0]         \* invalid: no ids, unsampled flag
 MC_NoHeaders == {}
-MC_Forms == {"value", "ref", "option", "box", "arc", "dyn", "ambient"}
+MC_NoKinds == {}
+MC_AllKinds == {"spanctxt", "state", "root"}
+MC_FormsNoSampler == {"setup", "nosampler"}
+MC_Forms == {"value", "ref", "option", "box", "arc", "dyn", "ambient", "stack"}
 \* invalid / partial headers; with the sampled-trace filter installed only those with the sampled flag
 MC_HeadersAllInv == {H_s1, H_u1, H_s1b, H_s2, H_u2, H_i0, H_iS, H_tS, H_tU, H_iSU, H_i0U}
 MC_HeadersInvS == {H_s1, H_u2, H_i0, H_iS, H_tS}
